@@ -34,6 +34,59 @@ SHAPES = {
     "selfdir": ["name/name/x", "name/y"],          # a directory called like the torrent inside the payload root
 }
 
+# ---- naming schemes: the same structural tree under adversarially chosen names --------------------------------
+# (names are configurations, not solver variables; the schemes below are the name relations that matter to sorting,
+#  path joining, globbing, case folding and key look-ups)
+
+def _rename(rels, mapping):
+    out = []
+    for r in rels:
+        comps = r.split("/")
+        out.append("/".join([comps[0]] + [mapping.get(c, c) for c in comps[1:]]))
+    return out
+
+
+SCHEMES = {
+    "special": {"a": "[a] *?{x}.bin", "b": "é 中 name.dat", "c": "c'\"c;&.x", "d": "d [1] (x)", "e": "e e", "z": "~z#%41"},
+    "hidden": {"a": ".a", "d": ".d", "b": ".b"},
+    "case": {"a": "README", "b": "readme", "c": "ReadMe", "d": "DIR", "z": "Z"},
+    "prefix": {"a": "d.a", "b": "d-b", "c": "d c", "z": "d"},           # names that extend a sibling directory's name
+    "fields": {"a": "comment", "b": "source", "c": "private", "d": "announce", "e": "url-list", "z": "info"},
+    "selfnamed": {"a": "name", "d": "name", "b": "name.torrent", "z": ".torrent"},
+    "padlike": {"a": ".pad", "b": "0", "d": ".pad", "c": "16384"},
+}
+
+
+def _register_schemes():
+    for shape in ("flat2", "nested3", "around3", "samedir2", "flat3"):
+        for sch, mp in SCHEMES.items():
+            rels = _rename(SHAPES[shape], mp)
+            if len(set(rels)) == len(rels) and rels != SHAPES[shape]:
+                # a name may not be both a file and a directory
+                dirs = {"/".join(r.split("/")[:i]) for r in rels for i in range(1, len(r.split("/")))}
+                if not (dirs & set(rels)):
+                    SHAPES["%s~%s" % (shape, sch)] = rels
+
+
+_register_schemes()
+
+
+def scheme_shapes(base_shapes, tier, seed=None, per_run=2):
+    """Shape names `<shape>~<scheme>` for the given structural shapes: all of them in the thorough tier, a
+    seed-dependent rotation of `per_run` schemes per shape in the quick tier."""
+    import os as _o
+    seed = int(_o.environ.get("VERIF_SEED", "0") or 0) if seed is None else seed
+    out = []
+    for sh in base_shapes:
+        names = sorted(k for k in SHAPES if k.startswith(sh + "~"))
+        if tier == "thorough":
+            out.extend(names)
+        elif names:
+            for i in range(per_run):
+                out.append(names[(seed * per_run + i) % len(names)])
+    return sorted(set(out))
+
+
 CLS = {"1": ("TorrentFile", None), "2a": ("TorrentAssembler", "2"), "3a": ("TorrentAssembler", "3"),
        "2c": ("TorrentFileV2", None), "3c": ("TorrentFileHybrid", None)}
 
